@@ -60,11 +60,11 @@ def c_obs(o):
     if any(r is None for r in rets):
         return None
     ml = lambda l: clist([c_msg(m) for m in l])
-    return ("(mkObs %s %s %s %s %s %s %s %s %d %s %s %s)" % (
+    return ("(mkObs %s %s %s %s %s %s %s %s %d %s %s %s %s)" % (
         clist(rets), ml(o["delivered"]), ml(o["dispatched"]),
         clist(["None" if m is None else "(Some %s)" % c_msg(m) for m in o["retrieved"]]),
         ml(o["out_q"]), ml(o["events"]), ml(o["locked_q"]), ml(o["sync_q"]),
-        o["clock"], cbool(o["locked"]), cnat(min(o["late"], 4000)), cbool(o["adone"])))
+        o["clock"], cbool(o["locked"]), cnat(min(o["late"], 4000)), cbool(o["adone"]), ml(o.get("cleared", []))))
 
 
 def c_case(case, res, legacy=None):
